@@ -118,6 +118,7 @@ public:
     bool connectPair()
     {
         if (!server.listen(QHostAddress::LocalHost, 0)) return false;
+        port = server.serverPort();
         reader = new QSslSocket();
         // our counter first, so that it sees bytesAvailable() before the XmppSocket lambda drains the socket
         QObject::connect(reader, &QSslSocket::readyRead, [this]() { pendingN = reader->bytesAvailable(); consumed += pendingN; reads++; evs.clear(); });
@@ -131,6 +132,51 @@ public:
         writer->setSocketOption(QAbstractSocket::LowDelayOption, 1);
         return writer != nullptr;
     }
+
+    quint16 port = 0;
+
+    // drain whatever the event loop still holds and report reads that happened meanwhile (normally none)
+    void settle() { for (int i = 0; i < 3; i++) QCoreApplication::processEvents(); }
+
+    // the peer (or the network) ends the connection; no qxmpp code is asked to do anything
+    bool peerLost()
+    {
+        readLog.clear();
+        writer->disconnectFromHost();
+        if (reader->state() != QAbstractSocket::UnconnectedState) reader->waitForDisconnected(3000);
+        settle();
+        writer->deleteLater(); writer = nullptr;
+        return reader->state() == QAbstractSocket::UnconnectedState;
+    }
+
+    // XmppSocket::disconnectFromHost(): closing tag, then close
+    bool localDisconnect()
+    {
+        readLog.clear();
+        xs.disconnectFromHost();
+        if (reader->state() != QAbstractSocket::UnconnectedState) reader->waitForDisconnected(3000);
+        QElapsedTimer t; t.start();
+        while (writer->state() != QAbstractSocket::UnconnectedState && t.elapsed() < 3000) writer->waitForDisconnected(100);
+        settle();
+        writer->deleteLater(); writer = nullptr;
+        return reader->state() == QAbstractSocket::UnconnectedState;
+    }
+
+    // the SAME XmppSocket connects again, through its own connectToHost(); returns the number of started() signals
+    int reconnect()
+    {
+        readLog.clear();
+        int s0 = startedCount;
+        xs.connectToHost({ QXmpp::Private::ServerAddress::Tcp, QStringLiteral("127.0.0.1"), port });
+        if (!reader->waitForConnected(5000)) return -1;
+        if (!server.hasPendingConnections() && !server.waitForNewConnection(5000)) return -1;
+        writer = server.nextPendingConnection();
+        if (!writer) return -1;
+        writer->setSocketOption(QAbstractSocket::LowDelayOption, 1);
+        return startedCount - s0;
+    }
+
+    std::string stateObs() { return " buf=" + std::to_string(xs.m_dataBuffer.toUcs4().size()) + " tag=" + std::to_string(xs.m_streamOpenElement.toUcs4().size()); }
 
     void reset()
     {
@@ -339,6 +385,50 @@ struct Runner {
         }
         if (!actualCuts.empty()) actualCuts.pop_back();
         return all;
+    }
+
+    // reads that happened outside a feed (around a disconnect / connect): normally none
+    void flushStrayReads(std::vector<std::string> *into)
+    {
+        for (auto &rd : rig.readLog) {
+            corr("b", rd.obs);   // only an empty read can happen here
+            if (into) for (auto &e : rd.evs) into->push_back(e);
+            stat("stray_reads_around_disconnect");
+        }
+        rig.readLog.clear();
+    }
+
+    // feed without resetting anything (used inside multi-connection histories)
+    std::vector<std::string> feedMore(const std::vector<QByteArray> &chunks)
+    {
+        std::vector<std::string> all;
+        for (auto &ch : chunks) {
+            if (!rig.feedBytes(ch)) { fprintf(stderr, "loopback transport stalled\n"); exit(3); }
+            if (rig.readLog.size() != 1) { transportRetries++; stat("transport_rechunked"); }
+            int off = 0;
+            for (auto &rd : rig.readLog) {
+                corr("b " + hexOf(ch.mid(off, int(rd.n))), rd.obs);
+                for (auto &e : rd.evs) all.push_back(e);
+                off += int(rd.n);
+            }
+        }
+        return all;
+    }
+
+    void endConnection(bool local)
+    {
+        bool ok = local ? rig.localDisconnect() : rig.peerLost();
+        if (!ok) { fprintf(stderr, "connection did not close\n"); exit(3); }
+        flushStrayReads(nullptr);
+        corr(local ? "localDisconnect" : "peerLost", "-" + rig.stateObs());
+    }
+
+    void connectAgain()
+    {
+        int st = rig.reconnect();
+        if (st < 0) { fprintf(stderr, "reconnect failed\n"); exit(3); }
+        flushStrayReads(nullptr);
+        corr("connect", (st == 1 ? std::string("started") : "started*" + std::to_string(st)) + rig.stateObs());
     }
 
     std::vector<std::string> runText(const std::vector<QString> &chunks)
@@ -706,6 +796,55 @@ int main(int argc, char **argv)
             { q(std::string(NS) + "<a/></stream:stream>\n"), q(std::string(NS) + "<b/>") },
         };
         for (auto &seq : seqs) { R.runText(seq); stat("after_close_probe_sequences"); }
+    }
+
+    // 11. several connections on ONE XmppSocket (what QXmppOutgoingClient does on every reconnect): connection 1 carries a
+    //     prefix of stream A cut at EVERY byte position (inside the header, a tag, an attribute value, an entity, a multi-byte
+    //     character, on item boundaries), ends by the peer or locally, then the same object connects again through its own
+    //     connectToHost() over loopback and receives stream B (one read, or cut in two).  Oracle: the events of the new connection
+    //     are those of B on a fresh object.  Some histories have three connections.
+    {
+        std::vector<size_t> firsts = thorough ? std::vector<size_t>{ 4, 11, 2, 22, 8, 42 } : std::vector<size_t>{ 4, 11, 2 };
+        long long n = 0;
+        for (size_t ai : firsts) {
+            const Stream &A = cs[ai];
+            for (int k = 1; k < A.bytes.size(); k++) {
+                for (int ending = 0; ending < 2; ending++) {
+                    if (!thorough && ((k + ending) & 1)) continue;     // quick: alternate the way connection 1 ends
+                    const Stream &B = cs[(ai + 1 + size_t(k) % 7) % cs.size()];
+                    rig.reset();
+                    corr("reset", "ok");
+                    R.feedMore({ A.bytes.left(k) });
+                    R.endConnection(ending == 1);
+                    R.connectAgain();
+                    std::vector<std::string> evs;
+                    bool three = (k % 5 == 0);
+                    const Stream *last = &B;
+                    if (three) {
+                        int kb = 1 + int(rng.below(uint32_t(B.bytes.size() - 1)));
+                        R.feedMore({ B.bytes.left(kb) });
+                        R.endConnection(ending == 0);
+                        R.connectAgain();
+                        last = &cs[(ai + 3) % cs.size()];
+                    }
+                    if (k % 3 == 0) {
+                        int c = 1 + int(rng.below(uint32_t(last->bytes.size() - 1)));
+                        evs = R.feedMore({ last->bytes.left(c), last->bytes.mid(c) });
+                        // a cut inside a multi-byte character must not matter either (decoder state is per connection)
+                    } else evs = R.feedMore({ last->bytes });
+                    if (nonKeepAlive(evs) == R.wholeEvents[last->name]) oraclePass()++;
+                    else {
+                        oracleFail("C03:previous-connection-leaks-into-next", "connection 1: first " + std::to_string(k) + " bytes of " + A.name + " (" + hexOf(A.bytes.left(k)) +
+                                   ") then " + (ending == 1 ? "localDisconnect" : "peerLost") + (three ? ", a second cut connection," : "") + " then reconnect and stream " + last->name +
+                                   ": expected=" + joinEvs(R.wholeEvents[last->name]) + " got=" + joinEvs(nonKeepAlive(evs)));
+                        stat("oracle_fail_reconnect");
+                    }
+                    n++;
+                    if (insideMultibyte(A.bytes, k)) stat("reconnect_histories_first_cut_inside_multibyte");
+                }
+            }
+        }
+        stat("reconnect_histories", n);
     }
 
     stat("prefix_oracle_checks", poChecks);
